@@ -15,3 +15,4 @@ import Bp7.Props.C10
 #print axioms Bp7.C10.reject_ipn_nonnumeric
 #print axioms Bp7.C10.node_id_parses
 #print axioms Bp7.C10.new_endpoint_dtn
+#print axioms Bp7.C10.new_endpoint_ipn
